@@ -1506,9 +1506,12 @@ theorem planDay_reqOk (c : MethodCfg) (inp : Inputs) (n m : Nat) (me : MethSt) (
   unfold planDay at hr
   split at hr
   · simp only [List.mem_map] at hr
-    obtain ⟨i, _, rfl⟩ := hr
-    have := hK.2 i
-    exact ⟨hT i, this.2.1, this.2.2.1, this.2.2.2, this.1⟩
+    obtain ⟨pl, _, rfl⟩ := hr
+    have : CRepOK c pl.site (if pl.inProg then me.rep pl.site else {}) := by
+      split
+      · exact hK.2 pl.site
+      · exact ⟨rfl, Int.le_refl 0, hS pl.site, fun _ => rfl⟩
+    exact ⟨hT pl.site, this.2.1, this.2.2.1, this.2.2.2, this.1⟩
   · simp only [List.mem_map] at hr
     obtain ⟨i, _, rfl⟩ := hr
     have h0 := hK.1 i
